@@ -335,6 +335,33 @@ Lemma counters_main : forall (s0 : S) (d : Data S) (k : nat) (i : Z),
 Proof. intros. split; [apply reset_with_get|apply warned_twice_get]; auto. Qed.
 End CheckMain.
 
+Section CtrlMain.
+Context {S : Type}.
+Lemma check_ctrl_main : forall (ctrl : list float) (d : Data S),
+  (Forall (fun x => isBad x = false) ctrl -> check_ctrl ctrl d = (ctrl, d)) /\
+  (Exists (fun x => isBad x = true) ctrl ->
+     exists i : nat, (i < length ctrl)%nat /\ isBad (nth i ctrl PrimFloat.zero) = true /\
+       (forall j, (j < i)%nat -> isBad (nth j ctrl PrimFloat.zero) = false) /\
+       check_ctrl ctrl d = (repeat PrimFloat.zero (length ctrl), mj_warning d WARN_BADCTRL (Z.of_nat i))).
+Proof.
+  intros. unfold check_ctrl. split.
+  - intro H. rewrite (entries_all_none _ H). reflexivity.
+  - intro H. destruct (entries_all_first ctrl H) as (i & Hi & Hl & Hb & Hpre).
+    exists i. rewrite Hi. repeat split; auto.
+Qed.
+
+Lemma warning_get : forall (d : Data S) (k : nat) (i : Z), (k < length (warn d))%nat ->
+  wget (mj_warning d k i) k = {| lastinfo := i; number := number (wget d k) + 1 |} /\
+  (forall j, j <> k -> wget (mj_warning d k i) j = wget d j) /\ core (mj_warning d k i) = core d.
+Proof.
+  intros. unfold wget.
+  change (warn (mj_warning d k i)) with (upd (warn d) k (fun w => {| lastinfo := i; number := number w + 1 |})).
+  repeat split.
+  - rewrite upd_nth_same; auto.
+  - intros j Hj. rewrite upd_nth_other; auto.
+Qed.
+End CtrlMain.
+
 (* ---------------------------------------------------------------- part 3 *)
 Open Scope R_scope.
 Lemma euler1_bound : forall h q v a : R,
